@@ -177,6 +177,26 @@ CHECKS = {
     note=NOTE_COMMON + "pthread mutex correctness assumed; hand-written assembly is not instrumented by TSan; one genuine race (global.pid in randombytes_internal) was found and repaired (known_findings.json)."),
 }
 
+# layers added after the per-property texts above were written (appended to text / technique)
+ADDED = {
+ "C01": ("; portable AEGIS-128L/256 code (generic *_common.h + table-based software AES round) modelled statement by statement and proved equal to the AEGIS specification for every length (Properties/C01Aegis.lean)",
+         " The portable AEGIS code is modelled in the C's structure (state update, absorb / enc / dec / declast loops, mac, wrappers, the strided constant-time T-table AES round) and proved equal to Spec AEGIS for every key, nonce, AD and message length, with the round trip; the driver runs AEGIS through this model; the AES-NI instantiation of the same generic code is compared through the correspondence."),
+ "C02": ("; AEGIS decrypt verdict / failure-output theorems over the C-structured model",
+         " For AEGIS the decision logic is proved over the C-structured model: rc = 0 iff the specification accepts, on failure the output is zeroed or untouched, inputs shorter than the tag rejected."),
+ "C03": ("; reference cores and the VECTORISED ChaCha20 code (dolbeau u0/u1/u4/u8 over a transcribed SSE/AVX2 intrinsic semantics) proved equal to the reference model, hence to RFC 8439, for every key, nonce, 64-bit counter and length",
+         " The reference block functions (chacha20_ref, crypto_core_salsa*, HSalsa20 / HChaCha20) and the AVX2 / SSSE3 vector code (counter lanes with carries, quarter rounds through shuffle_epi8, transpositions, tails, all four entry points) are modelled statement by statement and proved equal to the specification keystream; the intrinsic semantics they rest on are re-validated against this CPU on every run, the source files are pinned."),
+ "C04": ("; reference compression functions, Poly1305 donna64 limb arithmetic and the SIMD BLAKE2b compression functions (AVX2 / SSSE3 / SSE4.1, 144 message-load macros regenerated from the headers on every run) proved equal to the specification",
+         " SHA-256/512 transform, blake2b_compress_ref, SipHash, poly1305_donna64 and the three vectorised BLAKE2b compression functions are modelled in the C's structure and proved equal to the specification for every input (Properties/C04Compress, C04Poly, C04Simd); the message-load macros are generated from the headers and the proofs re-checked when they change."),
+ "C06": ("; the ge25519 group-operation code (point formulas, window recoding, constant-time lookups, the three scalar multiplications, base tables regenerated from the source) modelled and proved over an explicit curve-group hypothesis",
+         " The ge25519 code is inside the model: every addition / doubling formula is proved (as a polynomial identity) to compute the RFC 8032 formulas on the represented points, the signed-window and sliding-window recodings are proved as integer identities, the table lookups exact, the three scalar multiplications return n*P / n*B / a*A + b*B over any group the formulas implement, the 264 precomputed base-table entries are kernel-checked against the specification base point; that the RFC formulas form a group on the curve is an explicit hypothesis (a fact about edwards25519, not about libsodium)."),
+ "C07": ("; sc25519 limb code re-transcribed from the source every run and proved exact; ge25519 group-operation code as for C06",
+         " The scalar limb code (reduce / mul / muladd / invert) is regenerated from the source on every run and proved exact; the ge25519 point code is modelled and proved as described under C06 (two deviations outside the callers' contract stated as theorems: top window digit out of range for scalars >= 2^255, slide_vartime carry loss above 2^255)."),
+ "C08": ("; the reference Argon2 core proved equal to RFC 9106 end to end (any lane count), the reference scrypt components (Salsa20/8, BlockMix, Integerify, ROMix loops, PBKDF2) proved equal to RFC 7914 / 8018",
+         " The driver now runs the C-structured models of the reference cores (Properties/C08Core: fBlaMka .. fill_block .. index_alpha with exact bounds .. fill_segment .. finalize = RFC 9106 for every in-range input; Properties/C08Scrypt for the scrypt components); the vectorised fill / SSE2 scrypt code is compared with them per backend."),
+ "C11": ("; MiniC deep embedding + kernel-checked constant-time type checker with a soundness theorem for all programs and inputs; 24 leaf functions re-translated from the clang AST of the current source on every run",
+         " Tie B: tools/c2minic.py translates the current source of 24 constant-time leaf functions (comparison / big-number / padding helpers, hex and Base64 encoders and character maps, crypto_verify, canonicity loops, fe25519 cmov / cswap, lookup helpers) into a deep embedding; `ctCheck` (every branch condition, array index, division operand and variable shift amount must be Public) is decided by the kernel for each, and `MiniC.soundness` (proved once, for every program, input and fuel) turns that into non-interference of the branch / address trace of the code as it is now. A rejected function is searched for a concrete pair of inputs with different traces under the MiniC semantics."),
+}
+
 NOT_YET = {}
 
 ALL = ["C%02d" % i for i in range(1, 21)]
@@ -195,6 +215,9 @@ def main():
         if c["category"] == "proof" and not getattr(mod, "THEOREMS", []):
             c["category"] = "exploration"     # theorems for this property are not merged yet: claim only what the evidence file will show
             c["text"] = "(Lean theorems for this property are still being proved; until they are merged this check claims exploration only.) " + c["text"]
+        if pid in ADDED:
+            c["technique"] = c["technique"] + ADDED[pid][0]
+            c["text"] = c["text"] + ADDED[pid][1]
         checks.append({
             "property_id": pid,
             "quick_cmd": "python3 tools/check.py %s --tier quick" % pid,
